@@ -14,6 +14,7 @@ type modset struct {
 	vars map[*types.Var]bool
 	heap map[string]Sort
 	all  bool
+	pfx  []string
 }
 
 func newModset() *modset { return &modset{vars: map[*types.Var]bool{}, heap: map[string]Sort{}} }
@@ -26,6 +27,7 @@ func (m *modset) union(o *modset) {
 		m.heap[k] = s
 	}
 	m.all = m.all || o.all
+	m.pfx = append(m.pfx, o.pfx...)
 }
 
 var modCache = map[ast.Node]*modset{}
@@ -280,6 +282,16 @@ func (p *Proc) contractMod(m *modset, ct *Contract) {
 					m.all = true
 					return
 				}
+				if strings.HasPrefix(k.key, "$pfx:") {
+					pfx := strings.TrimPrefix(k.key, "$pfx:")
+					for hk, t := range p.heapEntry {
+						if strings.HasPrefix(hk, pfx) {
+							m.heap[hk] = t.Sort
+						}
+					}
+					m.pfx = append(m.pfx, pfx)
+					continue
+				}
 				m.heap[k.key] = k.sort
 			}
 		}
@@ -402,6 +414,9 @@ func (p *Proc) havocMod(st *State, m *modset, n ast.Node) {
 		p.havocAll(st)
 		return
 	}
+	for _, pfx := range m.pfx {
+		p.havocPrefix(st, pfx)
+	}
 	var ks []string
 	for k := range m.heap {
 		ks = append(ks, k)
@@ -415,6 +430,30 @@ func (p *Proc) havocMod(st *State, m *modset, n ast.Node) {
 		nh := p.havocHeap(st, k, m.heap[k])
 		p.heapMonotone(st, k, old, nh)
 	}
+}
+
+// havocPrefix forgets every heap array whose key starts with the prefix, including arrays
+// first touched later (a marker makes heapGet hand out fresh symbols for them).
+func (p *Proc) havocPrefix(st *State, prefix string) {
+	keys := map[string]Sort{}
+	for k, t := range p.heapEntry {
+		keys[k] = t.Sort
+	}
+	for k, t := range st.heap {
+		keys[k] = t.Sort
+	}
+	var ks []string
+	for k := range keys {
+		if strings.HasPrefix(k, prefix) {
+			ks = append(ks, k)
+		}
+	}
+	sort.Strings(ks)
+	for _, k := range ks {
+		p.havocHeap(st, k, keys[k])
+	}
+	p.havocEpoch++
+	st.heap["$pfx:"+prefix] = IntLit(int64(p.havocEpoch))
 }
 
 // heapMonotone keeps facts that survive any modification (allocation only grows, nil map stays empty).
@@ -451,6 +490,9 @@ func (p *Proc) havocAll(st *State) {
 	sort.Strings(ks)
 	for _, k := range ks {
 		if strings.HasPrefix(k, "G:") && !p.ctx.ghostHavocable(k) {
+			continue
+		}
+		if k == "$epoch" {
 			continue
 		}
 		old := p.heapGet(st, k, keys[k])
@@ -556,6 +598,15 @@ func (p *Proc) evalLoc(ec *ectx, e ast.Expr) []loc {
 		if id, ok := x.Fun.(*ast.Ident); ok && id.Name == "alloc" {
 			return []loc{{key: "AL:", sort: ArrSort(SInt, SBool)}}
 		}
+		if id, ok := x.Fun.(*ast.Ident); ok && id.Name == "containers" {
+			// the contents of every slice and map
+			return []loc{{key: "$pfx:SH:", sort: SBool}, {key: "$pfx:MD:", sort: SBool}, {key: "$pfx:MV:", sort: SBool}, {key: "$pfx:MC:", sort: SBool}}
+		}
+		if id, ok := x.Fun.(*ast.Ident); ok && id.Name == "pkgstate" {
+			// every field of every struct type declared in the named package
+			pn := x.Args[0].(*ast.Ident).Name
+			return []loc{{key: "$pfx:F:S_" + pn + "_", sort: SBool}}
+		}
 	}
 	p.failf(e, "%s: unsupported assigns entry", ec.where)
 	return nil
@@ -604,6 +655,10 @@ func (p *Proc) applyAssigns(st, pre *State, ct *Contract, fi *FuncInfo, fn *type
 	// facts learnt while evaluating locations in `pre` (wf assumptions) are not needed in st
 	for _, k := range order {
 		u := upds[k]
+		if strings.HasPrefix(k, "$pfx:") {
+			p.havocPrefix(st, strings.TrimPrefix(k, "$pfx:"))
+			continue
+		}
 		old := p.heapGet(st, k, u.sort)
 		if u.all {
 			nh := p.havocHeap(st, k, u.sort)
@@ -660,7 +715,7 @@ func (p *Proc) checkFrame(st *State, n ast.Node) {
 	}
 	al0 := p.heapGet(p.entry, "AL:", ArrSort(SInt, SBool))
 	for _, k := range sortedKeys(st.heap) {
-		if k == "AL:" || k == "$epoch" || whole[k] || strings.HasPrefix(k, "IF:") || strings.HasPrefix(k, "G:$") {
+		if k == "AL:" || k == "$epoch" || strings.HasPrefix(k, "$pfx:") || p.wholePrefix(whole, k) || whole[k] || strings.HasPrefix(k, "IF:") || strings.HasPrefix(k, "G:$") {
 			continue
 		}
 		now := st.heap[k]
@@ -685,6 +740,23 @@ func (p *Proc) checkFrame(st *State, n ast.Node) {
 // ---------------------------------------------------------------------------
 // Function values, closures, continuations (extended in closure.go)
 
+// cbVar returns the callback variable (parameter or captured) an expression denotes, following
+// aliases created by inlining.
+func (p *Proc) cbVar(ec *ectx, e ast.Expr) *types.Var {
+	v := p.varOfExpr(ec, e)
+	for i := 0; v != nil && i < 8; i++ {
+		if a, ok := p.cbAlias[v]; ok {
+			v = a
+			continue
+		}
+		break
+	}
+	if v != nil && p.cbParams[v.Name()] == v {
+		return v
+	}
+	return nil
+}
+
 func (p *Proc) varOfExpr(ec *ectx, e ast.Expr) *types.Var {
 	id, ok := ast.Unparen(e).(*ast.Ident)
 	if !ok || ec.info == nil {
@@ -692,4 +764,13 @@ func (p *Proc) varOfExpr(ec *ectx, e ast.Expr) *types.Var {
 	}
 	v, _ := ec.info.Uses[id].(*types.Var)
 	return v
+}
+
+func (p *Proc) wholePrefix(whole map[string]bool, k string) bool {
+	for w := range whole {
+		if strings.HasPrefix(w, "$pfx:") && strings.HasPrefix(k, strings.TrimPrefix(w, "$pfx:")) {
+			return true
+		}
+	}
+	return false
 }
